@@ -143,8 +143,17 @@ func yScenario(s Scenario) yaml.MapSlice {
 	return out
 }
 
-// YAMLDoc is the ordered document RenderYAML marshals.
+// YAMLDoc is the ordered document RenderYAML marshals: the keys of every mapping in the order of the
+// documentation's examples, then re-ordered as Layout.YAMLOrder says (yamlorder.go).
 func YAMLDoc(m Model) yaml.MapSlice {
+	doc := yamlDocDefault(m)
+	if len(m.Layout.YAMLOrder) == 0 {
+		return doc
+	}
+	return orderDoc(doc, "", m.Layout.YAMLOrder).(yaml.MapSlice)
+}
+
+func yamlDocDefault(m Model) yaml.MapSlice {
 	doc := yaml.MapSlice{}
 	if len(m.Sources) > 0 || m.Layout.YAMLEmptySections {
 		l := []yaml.MapSlice{}
